@@ -7,11 +7,11 @@ from .. import types as TY
 
 
 def tx(t):
-    return T.ir_text(t.ir).replace(" ", "")
+    return A.TTxt(T.ir_text(t.ir).replace(" ", ""))
 
 
 def texts(fn):
-    return [tx(t) for t in T.templates_of(fn)]
+    return A.TList(tx(t) for t in T.templates_of(fn))
 
 
 def need(ctx, key, cond, where, msg, detail=None):
@@ -161,7 +161,13 @@ def rule_discriminants(ctx):
     body = cl["body"]
     stmts = body["block"]["stmts"] if A.kind(body) == "Expr::Block" else []
     rs = [A.render_stmt(s) for s in stmts]
-    need(ctx, "disc:reset", any(re.fullmatch(r"if let Some\(d\)=discriminant\{last_discriminant=d\.1\.to_token_stream\(\);inc=0\}", r) for r in rs), w, "the offset is no longer reset to 0 exactly where an explicit discriminant replaces the base", {"stmts": rs})
+    whole = A.fn_text(fn)
+    mc = A.wsearch(whole, "let mut base=quote!(0);let mut cnt=0usize")
+    if not mc:
+        raise A.AnchorLost(f"{rel}::<Expansion as ToTokens>::to_tokens", "`let mut <base> = quote!{0}; let mut <counter> = 0usize;`")
+    base_n, cnt_n = mc.group("v_base"), mc.group("v_cnt")
+    rs = [A.canon_names(r, {base_n: "last_discriminant", cnt_n: "inc"}) for r in rs]
+    need(ctx, "disc:reset", any(A.wfull(r, "if let Some(d)=discriminant{last_discriminant=d.1.to_token_stream();inc=0}") for r in rs), w, "the offset is no longer reset to 0 exactly where an explicit discriminant replaces the base", {"stmts": rs})
     incs = [(i, r) for i, r in enumerate(rs) if r == "inc+=1"]
     need(
         ctx,
@@ -176,7 +182,7 @@ def rule_discriminants(ctx):
     need(ctx, "disc:fieldless-only", ret_i is not None and "fields.is_empty().then_some((" in rs[ret_i], w, "constants are no longer generated for field-less variants only")
     need(ctx, "disc:const-name", ret_i is not None and 'format_ident!("__DISCRIMINANT_{}",ident)' in rs[ret_i].replace(" ", ""), w, "the constant's name is no longer `__DISCRIMINANT_<variant identifier as written>`: a case-folding or otherwise non-injective name makes variants differing only in case collide (E0428)")
     tt = texts(fn)
-    need(ctx, "disc:const-expr", "#last_discriminant+#inc" in tt or "(#last_discriminant)+#inc" in tt, w, "constant expression is no longer `<last explicit> + <offset>`", {"templates": tt})
+    need(ctx, "disc:const-expr", "(#last_discriminant)+#inc" in tt, w, "constant expression is no longer `<last explicit> + <offset>`", {"templates": tt})
     impl = tt[-1] if tt else ""
     need(ctx, "disc:typed-consts", "#(const#consts:#repr_ty=#discriminants;)*" in impl, w, "constants are no longer typed as the repr integer")
     need(ctx, "disc:match", "matchval{#(#consts=>derive_more::core::result::Result::Ok(#ident::#variants),)*_=>derive_more::core::result::Result::Err(derive_more::TryFromReprError::new(val)),}" in impl, w, "the match no longer maps exactly the constants to their variants and everything else to `Err(TryFromReprError::new(val))`")
@@ -209,7 +215,7 @@ def rule_from_str(ctx):
     w = ctx.where(fn.file, fn.node)
     t = A.fn_text(fn)
     tt = texts(fn)
-    key_map = re.search(r"\.entry\(variant\.ident\.unraw\(\)\.to_string\(\)\.(\w+)\(\)\)", t)
+    key_map = re.search(r"\.entry\(\w+\.ident\.unraw\(\)\.to_string\(\)\.(\w+)\(\)\)", t)
     impl = tt[-1] if tt else ""
     src_map = re.search(r"matchsrc\.(\w+)\(\)\.as_str\(\)\{", impl)
     ctx.instance("fromstr:normalisation", sample={"key": key_map.group(1) if key_map else None, "scrutinee": src_map.group(1) if src_map else None})
@@ -225,15 +231,17 @@ def rule_from_str(ctx):
     need(ctx, "fromstr:lowercase", key_map.group(1) == "to_lowercase", w, "case-insensitive matching no longer uses `to_lowercase`")
     # guard structure
     loop = None
+    mm = A.wsearch(t, "let mut groups=HashMap::default()")
+    gname = mm.group("v_groups") if mm else None
     for fl, _ in A.find(fn.block, "Expr::ForLoop"):
-        if "variants_caseinsensitive" in A.render(fl["expr"]) and A.render_pat(fl["pat"]).startswith("("):
+        if gname and A.render(fl["expr"]) == gname and A.render_pat(fl["pat"]).startswith("("):
             loop = fl
     if loop is None:
         raise A.AnchorLost(f"{rel}::enum_from", "loop over the case-insensitive groups")
     lb = [A.render_stmt(s) for s in loop["body"]["stmts"]]
-    ok = len(lb) == 1 and re.fullmatch(
-        r"if variants\.len\(\)==1\{let variant=&variants\[0\];cases\.push\(quote!\(#canonical=>#input_type::#variant,\)\)\}else \{for variant in variants\{let variant_str=variant\.unraw\(\)\.to_string\(\);cases\.push\(quote!\(#canonical if\(src==#variant_str\)=>#input_type::#variant,\)\)\}\}",
+    ok = len(lb) == 1 and A.wfull(
         lb[0],
+        "if variants.len()==1{let variant=&variants[0];cases.push(quote!(#canonical=>#input_type::#variant,))}else {for variant in variants{let variant_str=variant.unraw().to_string();cases.push(quote!(#canonical if(src==#variant_str)=>#input_type::#variant,))}}",
     )
     need(
         ctx,
